@@ -129,7 +129,11 @@ func TestC09(t *testing.T) {
 							sendFailed[m.Params[0]] = true
 						}
 					}
-					trace = append(trace, "c:"+id)
+					if lost {
+						trace = append(trace, "cf:"+id)
+					} else {
+						trace = append(trace, "c:"+id)
+					}
 					if !sc.AllowPush {
 						res.Violatef("callback transmitted although push is not enabled", in, "%s", msg)
 					}
